@@ -1,7 +1,7 @@
 """Hand-written mutants (each passes the repository's own 36 tests unless noted)."""
 MUTANTS = []
-def M(id, prop, file, old, new, equivalent=False, all=False):
-    MUTANTS.append(dict(id=id, prop=prop, file=file, old=old, new=new, equivalent=equivalent, all=all))
+def M(id, prop, file, old, new, equivalent=False, all=False, nth=None):
+    MUTANTS.append(dict(id=id, prop=prop, file=file, old=old, new=new, equivalent=equivalent, all=all, nth=nth))
 
 # ---- C01
 M("c01-shift7", "C01", "py_common.py", "0xFF & ((G[0] << 8 - ibit) | (G[1] >> ibit))", "0xFF & ((G[0] << 8 - ibit) | (G[1] >> (ibit + (ibit == 7))))")
@@ -216,3 +216,4 @@ M("c14-uplink", "C14", "decoder/uplink.py", '        IC = ic_switcher.get(codeLa
 M("c14-nacv", "C14", "decoder/adsb.py", "    try:\n        HFOMr = uncertainty.NACv[NACv][\"HFOMr\"]\n        VFOMr = uncertainty.NACv[NACv][\"VFOMr\"]\n    except KeyError:", "    try:\n        HFOMr = uncertainty.NACv[NACv][\"HFOMr\"]\n        VFOMr = uncertainty.NACv[NACv][\"VFOMr\"]\n    except IndexError:")
 M("c15-is60-regress", "C15", "decoder/bds/bds60.py", "        if alt is not None and alt != -999999 and alt != -1:", "        if alt is not None:")
 M("c15-tell-regress", "C15", "decoder/__init__.py", '        _print("Altitude", None if alt in (-999999, -1) else alt, "feet")', '        _print("Altitude", alt, "feet")')
+M("c16-rtlsource", "C16", "streamer/source.py", "            elif df == 20 or df == 21:", "            elif df == 20:", nth=1)
